@@ -1,5 +1,5 @@
 CONSTANTS
-  Chars = {"a", "N"}
+  Chars = {"a", "N", ">"}
   NL = "N"
   PrefixSet <- MCPfx
   MaxText = 4
